@@ -269,6 +269,7 @@ type GreaseRecipient struct {
 	Append  int  // >0: Wrap appends this many bytes to the file-key slice it received
 	NArgs   int  // >0: this many further short arguments
 	Bare    bool // no arguments at all
+	Dash    int  // "---" inside the stanza line: 1 extra argument "slot---7", 2 in the type, 3 an argument "---"
 }
 
 // AppendSink keeps the appended slice alive.
@@ -290,6 +291,14 @@ func (g *GreaseRecipient) Stanzas() []*age.Stanza {
 		}
 		if g.Bare {
 			st.Args = nil
+		}
+		switch g.Dash {
+		case 1:
+			st.Args = append(st.Args, "slot---7")
+		case 2:
+			st.Type = fmt.Sprintf("grease---%d-%d", g.Tag, i)
+		case 3:
+			st.Args = append(st.Args, "---")
 		}
 		out = append(out, st)
 	}
